@@ -9,11 +9,13 @@ import (
 	iofs "io/fs"
 	"os"
 	"path"
+	"path/filepath"
 	"sort"
 	"strings"
 
 	"github.com/go-git/go-billy/v6"
 	"github.com/go-git/go-billy/v6/memfs"
+	"github.com/go-git/go-billy/v6/osfs"
 	"github.com/go-git/go-git/v6/plumbing"
 	"github.com/go-git/go-git/v6/storage/filesystem/dotgit"
 
@@ -42,9 +44,12 @@ func (r *recfs) ReadDir(n string) ([]iofs.DirEntry, error) {
 	r.rec(n)
 	return r.Filesystem.ReadDir(n)
 }
-func (r *recfs) MkdirAll(n string, perm iofs.FileMode) error { r.rec(n); return r.Filesystem.MkdirAll(n, perm) }
-func (r *recfs) Symlink(t, l string) error                   { r.rec(l); return r.Filesystem.Symlink(t, l) }
-func (r *recfs) Readlink(l string) (string, error)           { r.rec(l); return r.Filesystem.Readlink(l) }
+func (r *recfs) MkdirAll(n string, perm iofs.FileMode) error {
+	r.rec(n)
+	return r.Filesystem.MkdirAll(n, perm)
+}
+func (r *recfs) Symlink(t, l string) error         { r.rec(l); return r.Filesystem.Symlink(t, l) }
+func (r *recfs) Readlink(l string) (string, error) { r.rec(l); return r.Filesystem.Readlink(l) }
 func (r *recfs) TempFile(dir, prefix string) (billy.File, error) {
 	f, err := r.Filesystem.TempFile(dir, prefix)
 	if err == nil {
@@ -55,7 +60,7 @@ func (r *recfs) TempFile(dir, prefix string) (billy.File, error) {
 	return f, err
 }
 func (r *recfs) Chroot(p string) (billy.Filesystem, error) { r.rec(p); return r.Filesystem.Chroot(p) }
-func (r *recfs) Capabilities() billy.Capability          { return billy.Capabilities(r.Filesystem) }
+func (r *recfs) Capabilities() billy.Capability            { return billy.Capabilities(r.Filesystem) }
 
 const hashA = "1111111111111111111111111111111111111111"
 const hashB = "2222222222222222222222222222222222222222"
@@ -69,8 +74,63 @@ func write(fs billy.Filesystem, p, content string) {
 	f.Close()
 }
 
+// symlinkCase exercises what the lexical theorem leaves out: a directory below
+// refs/ (and logs/refs/) that is a symbolic link to a directory outside the
+// repository holding a sentinel file.  Real directory, go-git's own BoundOS
+// filesystem.  Observable: is the sentinel still intact after every entry point
+// was run on <link>/sentinel, and did any new file appear outside?
+func symlinkCase(c lib.Case) (lib.Out, any) {
+	base, err := os.MkdirTemp("", "verif-c14-")
+	if err != nil {
+		panic(err)
+	}
+	defer os.RemoveAll(base)
+	repo, outside := filepath.Join(base, "repo"), filepath.Join(base, "outside")
+	os.MkdirAll(filepath.Join(repo, "refs", "heads"), 0o777)
+	os.MkdirAll(filepath.Join(repo, "logs", "refs", "heads"), 0o777)
+	os.MkdirAll(outside, 0o777)
+	os.WriteFile(filepath.Join(repo, "HEAD"), []byte("ref: refs/heads/zz\n"), 0o666)
+	sentinel := filepath.Join(outside, "sentinel")
+	os.WriteFile(sentinel, []byte(hashA+"\n"), 0o666)
+	os.Symlink(outside, filepath.Join(repo, "refs", "heads", "evil"))
+	os.Symlink(outside, filepath.Join(repo, "logs", "refs", "heads", "evil"))
+	d := dotgit.New(osfs.New(repo, osfs.WithBoundOS()))
+	rn := plumbing.ReferenceName("refs/heads/evil/sentinel")
+	res := map[string]string{}
+	note := func(k string, err error) {
+		if err != nil {
+			res[k] = "err"
+		} else {
+			res[k] = "ok"
+		}
+	}
+	r, err := d.Ref(rn)
+	note("ref", err)
+	leaked := err == nil && r != nil && r.Hash().String() == hashA
+	note("set", d.SetRef(plumbing.NewHashReference(rn, plumbing.NewHash(hashB)), nil))
+	note("setnew", d.SetRef(plumbing.NewHashReference("refs/heads/evil/planted", plumbing.NewHash(hashB)), nil))
+	if f, err := d.ReflogWriter(rn); err == nil {
+		f.Write([]byte("x"))
+		f.Close()
+		res["logwrite"] = "ok"
+	} else {
+		res["logwrite"] = "err"
+	}
+	note("logdel", d.DeleteReflog(rn))
+	note("rm", d.RemoveRef(rn))
+	_, err = d.Refs()
+	note("list", err)
+	got, rerr := os.ReadFile(sentinel)
+	intact := rerr == nil && string(got) == hashA+"\n"
+	ents, _ := os.ReadDir(outside)
+	return lib.List(lib.Sym("symlink"), lib.Bool(intact), lib.Bool(leaked), lib.Int(int64(len(ents)))), res
+}
+
 func main() {
 	lib.Main(func(c lib.Case) (lib.Out, any) {
+		if c.Bool("symlink") {
+			return symlinkCase(c)
+		}
 		name := string(c.B("name"))
 		inner := memfs.New()
 		inner.MkdirAll("refs", 0o777)
